@@ -24,7 +24,7 @@ LEVEL_TEXT = ("The two runners are compared event-for-event on every generated p
 LEVEL_NOTE = "trusted: vf/sched.py recorder; asyncio's default event loop; non-real-time mode only"
 ASSUMPTIONS = ["non-real-time mode (the statement's scope)", "a real SIGINT is not delivered (asyncio.run installs its own handler); a KeyboardInterrupt raised while a doer has control is compared"]
 NSHARDS = {"quick": 8, "thorough": 16}
-REQUIRE = {"zero_limit_pairs": 60, "second_runs_of_same_doist_compared": 150, "second_runs_ended_by_a_limit": 40, "kbint_in_doer_pairs": 60, "runtime_extend_remove_pairs": 200, "doers_passed_as_tuple_or_generator": 80, "pairs_compared": 1200, "events_compared": 50000, "exception_exits_compared": 150,
+REQUIRE = {"pairs_with_temp_settings": 200, "temp_settings": 9, "zero_limit_pairs": 60, "second_runs_of_same_doist_compared": 150, "second_runs_ended_by_a_limit": 40, "kbint_in_doer_pairs": 60, "runtime_extend_remove_pairs": 200, "doers_passed_as_tuple_or_generator": 80, "pairs_compared": 1200, "events_compared": 50000, "exception_exits_compared": 150,
            "limit_exits_compared": 300, "with_foreign_task": 400}
 
 
@@ -67,6 +67,12 @@ def cases(tier, seed, shard, nshards):
         if prog["limit"] is None and not gen_sched.needs_limit(prog["doers"] + prog.get("pool", [])) and rng.random() < 0.5:
             prog["limit"] = rng.choice([0, 0.0, -0.0])      # a falsy limit means "no limit" for both runners
             prog["zero_limit"] = True
+        if rng.random() < 0.25:
+            # temp settings: Doist(temp=...) combined with do()/ado() called with or without temp=
+            prog["temp_used"] = True
+            prog["ctor_temp"] = rng.choice([None, True, False])
+            if rng.random() < 0.7:
+                prog["call_temp"] = rng.choice([None, True, False])
         second = None
         if fault is None and not prog.get("pool") and rng.random() < 0.35:
             # the same Doist object run a second time: what the first call left in it (a limit given in the call, the
@@ -122,6 +128,9 @@ def run_case(case, ctx):
                       trace=sched.compact(r1)[-60:])
         return
     ctx.count("pairs_compared")
+    if prog.get("temp_used"):
+        ctx.count("pairs_with_temp_settings")
+        ctx.seen("temp_settings", (prog.get("ctor_temp"), prog.get("call_temp", "absent")))
     if prog.get("zero_limit") and not prog.get("limit"):
         ctx.count("zero_limit_pairs")
     if (case.get("fault") or {}).get("exc") == "KeyboardInterrupt":
